@@ -111,8 +111,11 @@ extern int mpt_stream_sync(MPT_STRUCT(stream) *srm, size_t idlen, const MPT_STRU
 			ret = mc->cmd(mc->arg, &msg);
 		}
 		else {
-			continue;
+			ret = 0;
 		}
+		/* message is processed, advance to next one */
+		mpt_queue_recv(&srm->_rd);
+		
 		if (ret < 0) {
 			break;
 		}
